@@ -72,6 +72,31 @@ def norm(nf, t):
     return fill_defaults(nf, t)
 
 
+def unpack_unary_rule(ctx, rule="C06.R1") -> None:
+    """UnpackTuple learns its row from a UNARY sum only: both the wire row and the sum's variant rows are taken apart by patterns
+    that fit exactly one element (anything else raises), so the signature Tuple(row) -> row is the inverse of MakeTuple's"""
+    q = "hugr.ops.UnpackTuple._set_in_types"
+    fn, mod, _ = ctx.locate(q)
+    cf = ctx.cfn(q, subst=False)
+
+    def exactly_one(tgt, src_test):
+        for n in ast.walk(cf):
+            if isinstance(n, ast.Assign) and len(n.targets) == 1 and isinstance(n.targets[0], (ast.Tuple, ast.List)) and len(n.targets[0].elts) == 1 \
+                    and not isinstance(n.targets[0].elts[0], ast.Starred) and src_test(n.value):
+                return True
+        # or an explicit length test that refuses anything but one element
+        for p in ctx.paths(q):
+            if p.kind == "raise":
+                continue
+            if not any((("len(" in u(t)) and ("== 1" in u(t)) and k) or (("len(" in u(t)) and ("!= 1" in u(t)) and not k) for t, k in p.tests if src_test(t)):
+                return False
+        return True
+    ok = exactly_one(None, lambda e: any(isinstance(n, ast.Attribute) and n.attr == "variant_rows" for n in ast.walk(e)))
+    ctx.check(ok, rule, "hugr.ops.UnpackTuple._set_in_types: unary sums only", mod.path, fn.lineno,
+              "UnpackTuple must refuse a sum with more (or fewer) than one variant: its output row is the single variant's row; taking "
+              "the first of several variants types the node Tuple(row0) -> row0 over a wire that carries another sum", fn)
+
+
 def r1_signatures(ctx, nf) -> None:
     mod = ctx.program.module(OPS)
     for cname, meth, expr, cite in SIG_TABLE:
@@ -449,6 +474,7 @@ def run(ctx) -> None:
     ctx.rule("C06.R4", "Call: output count, function-port offset and port kinds all read the instantiated signature", floor=3)
     nf = NF(ctx.program)
     r1_signatures(ctx, nf)
+    unpack_unary_rule(ctx)
     r2_num_out(ctx, nf)
     r3_port_kinds(ctx, nf)
     r4_call(ctx, nf)
